@@ -74,6 +74,9 @@ func cmdRun(args []string) int {
 			fmt.Fprintln(os.Stderr, "profile written")
 		}()
 	}
+	if abs, err := filepath.Abs(*hdir); err == nil {
+		*hdir = abs
+	}
 	t0 := time.Now()
 	seed := int64(0)
 	if s := os.Getenv("VERIF_SEED"); s != "" {
